@@ -85,6 +85,7 @@ type observed struct {
 
 type replayer struct {
 	s    *sut
+	kept []mempool.BroadcastedTransaction // everything the pool handed out: must stay what it was
 	st   string
 	out  string
 	res  resT
@@ -343,9 +344,13 @@ func (r *replayer) apply(a label) error {
 	case "Pop":
 		tx, err := s.pool.Pop()
 		r.res = popResult(s.u, []mempool.BroadcastedTransaction{tx}, err)
+		if err == nil {
+			r.kept = append(r.kept, tx)
+		}
 	case "PopBatch":
 		txs, err := s.pool.PopBatch(a.N)
 		r.res = popResult(s.u, txs, err)
+		r.kept = append(r.kept, txs...)
 	case "WaitPoll":
 		select {
 		case <-s.pool.Wait():
@@ -451,6 +456,9 @@ func TestMempoolReplay(t *testing.T) {
 					report(si, "mempool-replay:End:drain", "the transactions left in the pool are not the specification's", st.Pre.Mem, res)
 				}
 			}
+		}
+		if _, why := idsOf(u, r.kept); why != "" {
+			report(len(beh)-1, "mempool-replay:retained-result", "a transaction the pool handed out earlier changed afterwards: "+why, nil, nil)
 		}
 		out.Count("rpc_pushes", r.nrpc)
 		s.closeAll()
